@@ -1,17 +1,272 @@
-//! C04 — stub (monitor not written yet)
-use serde_json::Value;
+//! C04 — every PURL value handed out is valid and normalised.
+//!
+//! An invariant predicate evaluated on every value the workload obtains from the parser or
+//! from a successful build(), for the built-in type parameters and for the user-shape family
+//! whose finish hook edits the parts arbitrarily.
 
-use super::Fail;
-use crate::obs::{Ctx, Tier};
+use std::fmt::Debug;
+use std::hash::Hash;
 
-pub const RULE: &str = "";
+use purl::{GenericPurl, GenericPurlBuilder, PurlShape};
+use serde_json::{json, Value};
 
-pub fn requirements(_tier: Tier) -> Vec<(&'static str, u64)> {
-    vec![("not-implemented", 1)]
+use super::values::{self, Visitor};
+use super::{str_field, Fail};
+use crate::gen;
+use crate::hist::U_VALUES;
+use crate::model::{checksum_canonical, key_ok};
+use crate::obs::{self, guard, Ctx, Out, Stats, Tier};
+use crate::rng::fnv;
+use crate::shapes::{self, Cfg, Shape};
+
+pub const RULE: &str = "a case is one PURL value obtained from the parser or a successful build() (one type parameter or user shape); non-trivial = it exercises at least one invariant clause beyond the name (namespace, version, subpath, >= 1 qualifier, checksum); distinct by hash of (type parameter, canonical string or accessor tuple)";
+
+pub fn requirements(tier: Tier) -> Vec<(&'static str, u64)> {
+    let q = tier == Tier::Quick;
+    vec![
+        ("values:parsed:String", if q { 50_000 } else { 500_000 }),
+        ("values:parsed:SmallString", 50_000),
+        ("values:parsed:Purl", 20_000),
+        ("values:built:String", 20_000),
+        ("values:built:SmallString", 20_000),
+        ("values:built:Cow::Owned", 20_000),
+        ("values:built:Cow::Borrowed", 20_000),
+        ("values:built:PackageType", 20_000),
+        ("values:user-shape", 20_000),
+        ("clause:qualifier-list>=2", 10_000),
+        ("clause:checksum>=2-algorithms", 1_000),
+        ("clause:type-needed-lowercasing", 1_000),
+        ("shape:hook-cleared-name-refused", 500),
+        ("shape:hook-empty-qualifier-dropped", 500),
+        ("shape:hook-bad-checksum-refused", 500),
+        ("shape:hook-checksum-canonicalised", 500),
+        ("shape:hook-wrote-empty-namespace", 100),
+        ("shape:members-exercised", 3_072),
+    ]
 }
 
-pub fn run(_ctx: &mut Ctx) {}
+/// The invariant. `builtin`: the type parameter is one of the built-in ones (type-string clause).
+pub fn invariant<T>(p: &GenericPurl<T>, builtin: bool, st: Option<&mut Stats>) -> Option<Fail>
+where
+    T: PurlShape + Clone,
+{
+    if p.name().is_empty() {
+        return Some(Fail::tagged("empty-name", "", "name() is empty"));
+    }
+    for (what, v) in [("namespace", p.namespace()), ("version", p.version()), ("subpath", p.subpath())] {
+        if v == Some("") {
+            return Some(Fail::tagged("empty-string-reported", what, format!("{what}() returned Some(\"\")")));
+        }
+    }
+    // stored parts (seen through into_builder) agree with the accessors
+    let b: GenericPurlBuilder<T> = p.clone().into_builder();
+    let stored = [
+        ("namespace", b.parts.namespace.as_str(), p.namespace()),
+        ("version", b.parts.version.as_str(), p.version()),
+        ("subpath", b.parts.subpath.as_str(), p.subpath()),
+    ];
+    for (what, stored, acc) in stored {
+        if stored != acc.unwrap_or("") {
+            return Some(Fail::tagged("stored-differs-from-accessor", what, format!("stored {what} {stored:?} vs accessor {acc:?}")));
+        }
+    }
+    if b.parts.name.as_str() != p.name() {
+        return Some(Fail::tagged("stored-differs-from-accessor", "name", "stored name differs from name()"));
+    }
+    for s in [Some(p.name()), p.namespace(), p.version(), p.subpath()].into_iter().flatten() {
+        if std::str::from_utf8(s.as_bytes()).is_err() {
+            return Some(Fail::tagged("invalid-utf8", "", format!("accessor returned invalid UTF-8: {:?}", s.as_bytes())));
+        }
+    }
+    // qualifiers
+    let q = p.qualifiers();
+    let mut prev: Option<String> = None;
+    let mut n = 0usize;
+    for (k, v) in q.iter() {
+        n += 1;
+        let ks = k.as_str();
+        if !key_ok(ks) {
+            return Some(Fail::tagged("qualifier-key-invalid", "", format!("qualifier key {ks:?} is not a valid key")));
+        }
+        if ks.bytes().any(|b| b.is_ascii_uppercase()) {
+            return Some(Fail::tagged("qualifier-key-not-lowercase", "", format!("qualifier key {ks:?} is not lower-case")));
+        }
+        if let Some(pk) = &prev {
+            if pk.as_str() >= ks {
+                return Some(Fail::tagged("qualifier-order", "", format!("qualifier keys not strictly ascending: {pk:?} then {ks:?}")));
+            }
+        }
+        prev = Some(ks.to_string());
+        if v.is_empty() {
+            return Some(Fail::tagged("qualifier-empty-value", "", format!("qualifier {ks:?} has an empty value")));
+        }
+        if std::str::from_utf8(v.as_bytes()).is_err() {
+            return Some(Fail::tagged("invalid-utf8", "qualifier", "qualifier value is invalid UTF-8"));
+        }
+        let upper = ks.to_ascii_uppercase();
+        let lookups = [
+            ("get(k)", q.get(ks) == Some(v)),
+            ("get(K)", q.get(upper.as_str()) == Some(v)),
+            ("contains_key(k)", q.contains_key(ks)),
+            ("contains_key(K)", q.contains_key(upper.as_str())),
+            ("[k]", guard("Index", || q[ks].as_str() == v) == Out::Ok(true)),
+            ("[K]", guard("Index", || q[upper.as_str()].as_str() == v) == Out::Ok(true)),
+        ];
+        if let Some((how, _)) = lookups.iter().find(|(_, ok)| !ok) {
+            return Some(Fail::tagged("qualifier-not-retrievable", *how, format!("qualifier {ks:?}={v:?} is listed by iter() but {how} does not return it")));
+        }
+    }
+    if n != q.len() || q.is_empty() != (n == 0) {
+        return Some(Fail::tagged("qualifier-len", "", format!("len() = {} but iter() yields {n}", q.len())));
+    }
+    let cs = q.get("checksum");
+    if let Some(cs) = cs {
+        if let Err(e) = checksum_canonical(cs) {
+            return Some(Fail::tagged("checksum-not-canonical", "", format!("checksum qualifier {cs:?}: {e}")));
+        }
+    }
+    if builtin {
+        let t = p.package_type().package_type();
+        if t.is_empty() || !t.bytes().all(|b| b.is_ascii_lowercase() || b.is_ascii_digit() || b == b'.' || b == b'+' || b == b'-') {
+            return Some(Fail::tagged("type-not-normalised", "", format!("type string {t:?} is empty, not lower-case or has characters outside [a-z0-9.+-]")));
+        }
+    }
+    if let Some(st) = st {
+        if n >= 2 {
+            st.count("clause:qualifier-list>=2");
+        }
+        if cs.map_or(false, |c| c.contains(',')) {
+            st.count("clause:checksum>=2-algorithms");
+        }
+    }
+    None
+}
 
-pub fn replay(_monitor: &str, _case: &Value) -> Result<Option<Fail>, String> {
-    Err("not implemented".into())
+pub struct C04;
+
+impl Visitor for C04 {
+    const MONITOR: &'static str = "C04.invariant";
+
+    fn visit<T>(&mut self, st: &mut Stats, p: &GenericPurl<T>, tp: &'static str, observe: bool) -> Option<Fail>
+    where
+        T: PurlShape + Clone + Eq + Hash + Ord + Debug,
+        T::Error: Debug,
+    {
+        if observe {
+            let extra = p.namespace().is_some() || p.version().is_some() || p.subpath().is_some() || !p.qualifiers().is_empty();
+            if extra {
+                if let Out::Ok(c) = obs::show(p) {
+                    st.nontrivial(fnv(format!("{tp}\u{0}{c}").as_bytes()));
+                    st.sample(|| json!({"type_parameter": tp, "value": c, "invariant": "holds"}));
+                }
+            }
+        }
+        invariant(p, true, if observe { Some(st) } else { None })
+    }
+}
+
+// --- user shapes -----------------------------------------------------------------------------
+
+/// Run one member of the shape family through the parser or the builder and judge the result.
+pub fn judge_shape(cfg: &Cfg, input: &str, via_parser: bool, st: Option<&mut Stats>) -> Option<Fail> {
+    shapes::set_cfg(cfg);
+    let out = if via_parser {
+        obs::parse::<Shape>(input)
+    } else {
+        // builder path: `input` is the name; the hook rewrites the rest
+        obs::build(GenericPurlBuilder::new(Shape::new(cfg, "custom"), input).with_namespace("ns0").with_version("v0"))
+    };
+    let log = shapes::take_log();
+    match out {
+        Out::Ok(p) => {
+            let f = invariant(&p, false, None);
+            if let Some(st) = st {
+                st.count("values:user-shape");
+                let h = cfg.hook;
+                if h & shapes::H_EMPTY_QUAL != 0 {
+                    st.count("shape:hook-empty-qualifier-dropped");
+                }
+                if h & shapes::H_CS_NONCANON != 0 && h & shapes::H_CS_BAD == 0 {
+                    st.count("shape:hook-checksum-canonicalised");
+                }
+                if h & shapes::H_NS != 0 && cfg.values[0].is_empty() {
+                    st.count("shape:hook-wrote-empty-namespace");
+                }
+                st.nontrivial(fnv(format!("shape{cfg:?}{input}").as_bytes()));
+            }
+            f
+        },
+        Out::Err(e) => {
+            if let Some(st) = st {
+                let hook_ran_ok = log.iter().any(|e| matches!(e, shapes::Event::Finish { ok: true, .. }));
+                if hook_ran_ok && cfg.hook & shapes::H_CLEAR_NAME != 0 && e == "Parse(MissingRequiredField(Name))" {
+                    st.count("shape:hook-cleared-name-refused");
+                }
+                if hook_ran_ok && cfg.hook & shapes::H_CS_BAD != 0 && e == "Parse(InvalidQualifier)" {
+                    st.count("shape:hook-bad-checksum-refused");
+                }
+            }
+            None
+        },
+        Out::Panic(m) => Some(Fail::tagged("panicked", m.clone(), format!("user shape {cfg:?} on {input:?}: {m}"))),
+    }
+}
+
+pub fn run(ctx: &mut Ctx) {
+    let mut v = C04;
+    values::standard_workload(&mut v, ctx, "c04", 4, 2);
+    // how often did a built-in type parameter have to lower-case its type?
+    let mut r = ctx.rng("c04.types");
+    for _ in 0..ctx.share(20_000, 500_000) {
+        let mut h = crate::hist::rand_hist(&mut r, false);
+        h.ty = crate::spell::gen_type(&mut r);
+        if h.ty.bytes().any(|b| b.is_ascii_uppercase()) {
+            ctx.st.count("clause:type-needed-lowercasing");
+        }
+        for tp in &values::BUILT_TPS[..4] {
+            values::built_case(&mut v, ctx, tp, &h);
+        }
+    }
+    // the user-shape family: every member x inputs
+    let cfgs = shapes::all_cfgs();
+    let mut r = ctx.rng("c04.shapes");
+    let rounds = if ctx.quick() { 96 } else { 1000 };
+    for (i, base) in cfgs.iter().enumerate() {
+        if !ctx.mine(i as u64) {
+            continue;
+        }
+        ctx.st.count("shape:members-exercised");
+        for round in 0..rounds {
+            let mut cfg = base.clone();
+            for k in 0..3 {
+                cfg.values[k] = if round % 3 == 0 { r.pick(U_VALUES).to_string() } else { gen::mixed_string(&mut r, 0, 8, 50) };
+            }
+            let via_parser = round % 2 == 0;
+            let input = if via_parser {
+                let t = crate::spell::gen_tuple(&mut r, false);
+                let mask = crate::spell::random_mask(&mut r);
+                crate::spell::spell(&mut r, &t, mask).assemble()
+            } else {
+                gen::mixed_string(&mut r, 1, 8, 40)
+            };
+            ctx.st.evaluations += 1;
+            if let Some(f) = judge_shape(&cfg, &input, via_parser, Some(&mut ctx.st)) {
+                ctx.st.violation(
+                    "C04.invariant",
+                    f.signature("C04.invariant", &format!("shape:{}", f.kind)),
+                    format!("user shape {cfg:?}, input {input:?} via {}: {}", if via_parser { "parser" } else { "builder" }, f.detail),
+                    json!({"source": "shape", "cfg": cfg, "input": input, "via_parser": via_parser}),
+                );
+            }
+        }
+    }
+}
+
+pub fn replay(_monitor: &str, case: &Value) -> Result<Option<Fail>, String> {
+    if str_field(case, "source")? == "shape" {
+        let cfg: Cfg = serde_json::from_value(case.get("cfg").cloned().unwrap_or(Value::Null)).map_err(|e| e.to_string())?;
+        let via = case.get("via_parser").and_then(|v| v.as_bool()).unwrap_or(true);
+        return Ok(judge_shape(&cfg, str_field(case, "input")?, via, None));
+    }
+    values::replay(&mut C04, case)
 }
